@@ -485,6 +485,13 @@ func c18Provenance(c *Ctx) {
 					acc = append(acc, i)
 				}
 			case "eq":
+				// x == "keyword": accepts exactly that word (whether it is hostile-free is R6/R7's business)
+				if _, isK := constString(at.Y); isK && fromParam(at.X) {
+					if bt, ok := at.X.Type().Underlying().(*types.Basic); ok && bt.Info()&types.IsString != 0 {
+						acc = append(acc, i)
+						continue
+					}
+				}
 				// FindString(x) == x
 				for _, pair := range [][2]ssa.Value{{at.X, at.Y}, {at.Y, at.X}} {
 					if fs := isCallTo(pair[0], "(*regexp.Regexp).FindString"); fs != nil && fs.Common().Args[1] == pair[1] && fromParam(pair[1]) {
